@@ -968,8 +968,14 @@ pub fn to_real_instr(i: &MI) -> PushInstruction {
         IsEmpty(Ty::Bool) => BoolInstruction::IsEmpty(Default::default()).into(),
         StackDepth(Ty::Bool) => BoolInstruction::StackDepth(Default::default()).into(),
         Flush(Ty::Bool) => BoolInstruction::Flush(Default::default()).into(),
+        // literals are built through every public constructor the crate offers (chosen by the
+        // value, so both forms occur throughout the workloads and must behave alike)
+        PushInt(v) if v.rem_euclid(3) == 1 => PushInstruction::push_int(*v),
         PushInt(v) => IntInstruction::push(*v).into(),
+        PushFloat(v) if v.to_bits() % 3 == 1 => PushInstruction::push_float(OrderedFloat(*v)),
+        PushFloat(v) if v.to_bits() % 3 == 2 => FloatInstruction::push_ordered_float(OrderedFloat(*v)).into(),
         PushFloat(v) => FloatInstruction::push(*v).into(),
+        PushBool(v) if *v => PushInstruction::push_bool(*v),
         PushBool(v) => BoolInstruction::push(*v).into(),
         PushExec(p) => exec_push(to_real(p)).into(),
         Print(Ty::Int) => IntInstruction::Print(pr::Print::new()).into(),
